@@ -31,6 +31,32 @@ CLAIMED = {
   text="coq/Props/C06.v proves: no negotiation for a 1.0.1 client; the settled version is min(client max, reader max) (1.0.1 on version-unsupported); SetProtocolVersion only if different; both negotiation frames carry 1.1; every later frame (requests and acks) carries the negotiated version for conforming stamping (and the refuted witness for the pre-fix behaviour); any other error/refusal/wrong type/oversize fails Connect. "
        "Every run enumerates the whole finite space of sessions (5.7k quick, 82k thorough) on the real Client over net.Pipe and compares frames, outcome and later-frame versions with the model and with the property clauses.",
   note=NOTE_COMMON + "Trusted: the scripted reader's own frame code; atomicity of the negotiation exchange (one request outstanding). The SetProtocolVersion payload format is recorded, not judged (DESIGN §7)."),
+
+ "C18": dict(
+  technique="Coq proof over a line-by-line model of nextWait (explicit int64 wrap, truncating division, jitter draw as argument) and of the retry loop over outcome/context histories; differential correspondence with Go nextWait and RetryWithCtx",
+  text="coq/Props/C18.v (30 theorems): pause in [0,max]; = min(max, base*2^(n-1)) without jitter, max from the 63rd on; in [0, min(max, base*(2^n-1))] with jitter; no shift/product leaves int64 on the branch that computes it — for every n incl. negative and >= 62 and every configured int64 BackOff/Max through RetryWithCtx's normalisation. Loop, for all outcome/context histories: runs at least once and at most max(1,retries) times (Forever unbounded), stops at once on ok / unrecoverable / context end before or during a wait, success iff last run succeeded, failure reason matches in the errors.Is sense, kept errors <= max(1,KeepErrs). "
+       "Tie: 443k nextWait grid values (5.6M thorough) with the jitter draw mirrored, 48k scripted RetryWithCtx runs over all outcome sequences <= 6 x retries x KeepErrs x cancel/deadline positions.",
+  note=NOTE_COMMON + "Modelled not verified: math/rand.Int63n range (draw mirrored by seeding), time.Timer / context semantics, Go select choosing any ready case."),
+ "C12": dict(
+  technique="Coq proof over the SendFor decision function and status-to-error mapping (recursive ParameterError tree); differential correspondence through the real Client.SendFor against a scripted peer for all 65536 status codes",
+  text="coq/Props/C12.v: success iff the reply has the expected type and status Success; any other status or an ERROR_MESSAGE yields an error view carrying the same code, description and the nested FieldError/ParameterError chain to any depth; a reply of another type yields an error and leaves the response value untouched — for all types, codes, descriptions, trees. "
+       "Tie: 733k exchanges quick (all 65536 codes x {expected, ErrorMessage} on 6 types + stratified on 13; all 817 (expected, actual) pairs; nested shapes to depth 4 and chains to 300; 21 descriptions), 2.4M thorough; predicate evaluated on Go's answer and compared with the extracted model.",
+  note=NOTE_COMMON + "Trusted: the scripted peer's own LLRPStatus/FieldError/ParameterError TLV bytes and framing. Decision (DESIGN §7): ERROR_MESSAGE with status Success only needs a non-nil error."),
+ "C03": dict(
+  technique="Coq invariant proof over the client LTS (all event lists = all schedules, any number of callers); scripted-session differential correspondence against the real Client on net.Pipe + stress traces judged by the property predicate",
+  text="coq/Props/C03.v over coq/Client/Model.v: for every event list, every (caller, frame) in delivered has the id assigned to that caller's request, was sent by the peer with that type and payload tag, is delivered at most once and to no other caller; with the reader-initiated filter (as the code now has) a KeepAlive/ROAccessReport/ReaderEventNotification is never delivered as a reply; the refuted witness for the unfiltered variant is kept. "
+       "Tie: ~480 generated scripts (out-of-order replies, >= 2 outstanding, unsolicited frames with colliding ids, cancellations) run on Go and on the extracted model (the model variant agreeing with the code is detected), observables compared, property predicate evaluated on who-received-which-payload; stress mode with random permutations.",
+  note=NOTE_COMMON + "Trusted: atomicity granularity of the LTS (one event per channel operation / awaitMu section), Go channel/select/mutex semantics, the script-to-event mapping in coq/Client/Script.v, the scripted peer's own frame code."),
+ "C05": dict(
+  technique="Coq invariant proof over the client LTS write side; independent frame parser on the raw bytes the scripted peer receives",
+  text="coq/Props/C05.v (9 theorems): for every event list the wire history is a concatenation of whole frames (one frame finished before the next begins: single writer), each length field = 10 + payload length without u32 wrap, each request appears at most once and exactly once if its caller obtained a reply, with the caller's type and payload tag, and ids assigned on one connection are pairwise distinct below 2^32 accepted requests. "
+       "Tie: scripts with concurrent senders, acks, cancellations, payload sizes 0..64KiB (near 640KiB thorough); raw bytes parsed by the harness's own parser and judged by the property predicate; compared with the extracted model.",
+  note=NOTE_COMMON + "Trusted: single-writer assumption (only handleOutgoing writes to conn), LTS atomicity, net.Pipe as ordered byte stream."),
+ "C07": dict(
+  technique="Coq invariant + enabledness proof over the client LTS ack queue and writer priority; scripted keep-alive scenarios against the real Client",
+  text="coq/Props/C07.v (7 theorems): the KeepAliveAck frames written carry exactly ids of received keep-alives, in order, each at most once; every keep-alive dispatched with fewer than five pending is queued or acknowledged; whenever the ack queue is non-empty and the writer idle the ack step is enabled regardless of outstanding requests, queued callers or negotiation; nothing else is ever acknowledged. "
+       "Tie: keep-alives (ids 0, colliding, 2^32-1) injected while k requests are outstanding, during negotiation, in bursts of 5/6/7 with the peer not reading; ack ids vs keep-alive ids judged on Go's raw output and compared with the model.",
+  note=NOTE_COMMON + "Trusted: LTS atomicity, buffered-channel semantics (capacity 5), Go select priority pattern (first select then default select). 'as long as the reader keeps reading' is a fairness assumption stated in the theorem."),
 }
 NOT_APPLICABLE = {}
 for _p in ["C%02d" % i for i in range(1, 21)]:
